@@ -416,7 +416,14 @@ impl State {
                 let idx = match numbers::get_highest_index(&self.config.file_spec)? {
                     None => 0,
                     Some(idx) => {
-                        if self.config.append {
+                        // continue the newest file only if it is still there as a plain file
+                        if self.config.append
+                            && self
+                                .config
+                                .file_spec
+                                .as_pathbuf(Some(&numbers::number_infix(idx)))
+                                .exists()
+                        {
                             idx
                         } else {
                             idx + 1
